@@ -40,7 +40,7 @@ func NewUnpackInfo(dst string, header *tar.Header) (UnpackInfo, error) {
 
 	// Check for paths outside our directory, they are forbidden
 	target := filepath.Clean(path)
-	if !strings.HasPrefix(target, dst) {
+	if !pathWithin(dst, target) {
 		return UnpackInfo{}, errors.New("invalid filename, traversal with \"..\" outside of current directory")
 	}
 
@@ -88,6 +88,17 @@ func NewUnpackInfo(dst string, header *tar.Header) (UnpackInfo, error) {
 	}
 
 	return result, nil
+}
+
+// pathWithin reports whether path is root itself or lies below it. Unlike a
+// plain string prefix test it does not accept a sibling of root whose name
+// merely starts with root's name (for example "/dst-evil" for root "/dst").
+func pathWithin(root, path string) bool {
+	rel, err := filepath.Rel(root, path)
+	if err != nil {
+		return false
+	}
+	return rel != ".." && !strings.HasPrefix(rel, ".."+string(os.PathSeparator))
 }
 
 // IsSymlink describes whether the file being unpacked is a symlink
